@@ -25,6 +25,17 @@ def sc(s):
     return V.str_const(s)
 
 
+def _recounted(c, act):
+    """whenever the accounting is active the stored state_rep is the result of a _count_worker_state() made in this
+    very call (a skipped recount leaves a stale tuple and the next interval is charged to the wrong states)"""
+    new = [r for r in c.new.ghost.get("call_results", [])[len(c.old.ghost.get("call_results", [])):] if r[0] == "_count_worker_state"]
+    if not new:
+        return z3.Not(act)
+    res = new[-1][1]
+    rep = c.new.f["state_rep"]
+    return z3.Implies(act, z3.And(z3.Not(rep.isnone), rep.val.items[0].t == res.items[0].t, rep.val.items[1].t == res.items[1].t))
+
+
 def _ts(st, pid):
     """thread_state attribute of process pid (string code)"""
     return z3.Select(st.heap_arr("thread_state"), pid)
@@ -371,6 +382,8 @@ def install(lib):
                                                                         z3.And(*[d[k] == 0 for k in MIRROR])), ("C17",)),
             Clause("mirror-fields-agree", lambda c: z3.And(*[
                 n.f[MIRROR[k]].t - o.f[MIRROR[k]].t == d[k] for k in MIRROR]), ("C17",)),
+            Structural("state-rep-is-the-fresh-worker-count", lambda c: _recounted(c, act), ("C17",),
+                       caller_effect=lambda c: None),
             Clause("state-rep-is-recounted", lambda c: z3.Implies(act, z3.And(
                 z3.Not(n.f["state_rep"].isnone), n.f["state_rep"].val.items[0].t >= 0, n.f["state_rep"].val.items[1].t >= 0)),
                 ("C17",)),
